@@ -71,6 +71,7 @@ def apply_op(dec, rec, op):
         except SubscriberRefused:  # a subscriber refused the change: the caller carries on; the decider's own state
             pass                   # (runs, finished-run memory) must be what it is when every subscriber returns
         except Exception as ex:   # BoboDeciderError (duplicate run id) escapes update()
+            dec.verif_error = "%s: %s" % (type(ex).__name__, ex)
             return [-9, 3], None
         tag = -7
     else:
